@@ -5,6 +5,7 @@ import (
 	"go/constant"
 	"go/token"
 	"go/types"
+	"strings"
 )
 
 func init() { register("C07", rulesC07, nil) }
@@ -288,7 +289,65 @@ func rulesC07(c *Ctx) {
 			}
 		}
 		c.Pin("StreamableServerTransport literals with a Stateless key", nLit, 2)
+		// … and the connection's own copy of the flag is that flag, nothing more
+		connSt := c.Field(pM, "streamableServerConn", "stateless")
+		nCopy := 0
+		for _, f := range c.funcsWithLits(pM) {
+			inspectNoLit(f.Body, func(n ast.Node) {
+				if kv, ok := n.(*ast.KeyValueExpr); ok && f.ObjOf(kv.Key) == types.Object(connSt) {
+					nCopy++
+					c.Check(f.IsField(kv.Value, statelessF), "stateless-copy:"+f.Root().Name(), f, kv, "streamableServerConn.stateless is initialised from StreamableServerTransport.Stateless alone (found %s)", exprStr(kv.Value))
+				}
+			})
+			for _, w := range f.FieldWrites(f.Body, connSt, false) {
+				c.Fail("stateless-assigned:"+f.Name(), f, w, "streamableServerConn.stateless is assigned after construction")
+			}
+		}
+		c.Pin("initialisations of streamableServerConn.stateless", nCopy, 1)
 	})
+
+	c.Rule("R-C07-6", "a failed server/discover probe leaves the connection usable for the initialize fallback: checkResponse only classifies a response (it never marks the connection failed itself), and the one caller that fails the connection exempts the discover request", func() {
+		cr := c.Fn(pM, "streamableClientConn", "checkResponse")
+		failObj := c.FnObj(pM, "streamableClientConn", "fail")
+		c.Check(len(cr.CallsIn(cr.Body, failObj, true)) == 0, "checkResponse:no-side-effect", cr, nil, "checkResponse does not call c.fail: whether an HTTP error ends the session is the caller's decision (Write keeps the connection for a rejected server/discover)")
+		wr := c.Fn(pM, "streamableClientConn", "Write")
+		g := wr.Graph()
+		disc := c.Obj(pM, "methodDiscover")
+		crv := g.callVertices(cr.Obj)
+		c.Need(len(crv) >= 1, "Write: checkResponse call")
+		n := 0
+		for _, fv := range g.callVertices(failObj) {
+			if !g.ReachableFrom(crv[0])[fv] {
+				continue
+			}
+			n++
+			guards := g.GuardsAt(fv)
+			notDiscover := hasAtom(guards, func(a Atom) bool {
+				// on the false side of `requestMethod == methodDiscover && …`, or under `requestMethod != methodDiscover`
+				x, y, op, ok := binaryCmp(a.E)
+				if !ok {
+					return false
+				}
+				isD := wr.ObjOf(y) == disc || wr.ObjOf(x) == disc
+				return isD && ((op == token.EQL && !a.Val) || (op == token.NEQ && a.Val))
+			})
+			// the Go source writes it as if A && B {…} else if C {fail}: the else edge gives !(A && B), which does not split;
+			// accept the compound negation when A is the discover test and B is the same !ErrRejected test that guards fail
+			if !notDiscover {
+				notDiscover = hasAtom(guards, func(a Atom) bool {
+					b, isB := a.E.(*ast.BinaryExpr)
+					if !isB || b.Op != token.LAND || a.Val {
+						return false
+					}
+					x, y, op, ok := binaryCmp(b.X)
+					return ok && op == token.EQL && (wr.ObjOf(y) == disc || wr.ObjOf(x) == disc)
+				})
+			}
+			c.Check(notDiscover, "Write:fail-after-checkResponse-exempts-discover#"+itoa(n), wr, g.Node(fv), "c.fail after a bad response is reached only when the request was not server/discover (guards: %s)", atomsString(guards))
+		}
+		c.Pin("fail sites after checkResponse in Write", n, 1)
+	})
+	c.Import("R-C07-7", "a server/discover POST that does not reach the server is a per-message rejection (the session survives and falls back to initialize)", "C13", "R-C13-5", func(k string) bool { return strings.HasPrefix(k, "Write:") })
 
 	c.Rule("R-C07-3", "the client accepts a session only after verifying the negotiated version, closes the session on every failed handshake step, and falls back to a legacy table entry", func() {
 		cc := c.Fn(pM, "Client", "Connect")
